@@ -114,6 +114,13 @@ def classify_kani(out, rc, timed_out, expect):
         return r
     if 'VERIFICATION:- FAILED' in out:
         real = [f for f in fails if 'unwinding assertion' not in f['desc']]
+        if not fails:
+            if 'out of memory' in out.lower() or 'bad_alloc' in out:
+                r['reason'] = 'solver out of memory (cap reached)'
+            else:
+                m2 = re.search(r'CBMC failed[^\n]*|CBMC timed out[^\n]*|error[^\n]*', out)
+                r['reason'] = 'verifier gave no check results: ' + (m2.group(0) if m2 else 'unknown')
+            return r
         if not real:
             r['reason'] = 'only unwinding assertions failed (bound too small), %d undetermined' % undetermined
             return r
@@ -148,9 +155,9 @@ class Run:
         self.cv = threading.Condition()
 
     # -------------------------------------------------------------- kani
-    def prepare_kani(self, profile='default'):
+    def prepare_kani(self, profile, uses, active):
         out = os.path.join(self.scratch, profile)
-        meta = weave.weave_kani(REPO, out, profile)
+        meta = weave.weave_kani(REPO, out, uses, active)
         self.meta[profile] = meta
         crate = os.path.join(out, 'kani-crate')
         cmd = ['cargo', 'kani', '--only-codegen'] + KANI_FLAGS
@@ -254,11 +261,17 @@ class Run:
         other = [o for o in obls if o['backend'] != 'kani']
         profiles = sorted(set(o['profile'] for o in kani_obls))
         crates = {}
-        for p in profiles:
+
+        def prep(p):
+            uses = next(o['uses'] for o in kani_obls if o['profile'] == p)
+            active = [o['name'] for o in kani_obls if o['profile'] == p]
             try:
-                crate, err = self.prepare_kani(p)
+                return self.prepare_kani(p, uses, active)
             except weave.WeaveError as e:
-                crate, err = None, str(e)
+                return None, str(e)
+        with cf.ThreadPoolExecutor(max_workers=6) as ex:
+            built = list(ex.map(prep, profiles))
+        for p, (crate, err) in zip(profiles, built):
             if crate is None:
                 for o in kani_obls:
                     if o['profile'] == p:
